@@ -74,3 +74,32 @@ class RawRecordingStream(io.RawIOBase):
     def take(self):
         r, self.reads = self.reads, []
         return r
+
+
+class ShortReadStream(io.RawIOBase):
+    """a raw stream that, from byte position `start' on, hands out at most `limit' bytes per call (raw streams may
+    always return fewer bytes than asked for: pipes, sockets, device files, very large reads)"""
+
+    def __init__(self, data, start, limit):
+        io.RawIOBase.__init__(self)
+        self._b = io.BytesIO(data)
+        self._start, self._limit = start, limit
+
+    def readable(self):
+        return True
+
+    def seekable(self):
+        return True
+
+    def readinto(self, buf):
+        if self._b.tell() >= self._start and len(buf) > self._limit:
+            part = self._b.read(self._limit)
+            memoryview(buf).cast("B")[:len(part)] = part
+            return len(part)
+        return self._b.readinto(buf)
+
+    def seek(self, *a):
+        return self._b.seek(*a)
+
+    def tell(self):
+        return self._b.tell()
